@@ -212,7 +212,18 @@ class FnContract:
             elif kd == 'bool' and v is not None and not isinstance(v, VBool):
                 bound[an] = VBool(eng.truth(v, st))
             elif kd == 'dyn' and v is not None and not isinstance(v, VDyn):
-                bound[an] = VDyn(eng.to_dyn(v, st))
+                dv = eng.to_dyn(v, st)
+                o_ = st.get(v) if isinstance(v, VRef) else None
+                if isinstance(o_, OList) and o_.items is None and o_.ekind == 'val':
+                    # a list object handed over as a value: its length and its items are what iterating it yields (P: list semantics)
+                    from . import prelude as _pl
+                    _pl.declare_fun('dyn_item', [t.VAL, t.INT], t.VAL)
+                    _pl.declare_fun('dyn_len', [t.VAL], t.INT)
+                    _pl.declare_fun('dyn_sized', [t.VAL], t.BOOL)
+                    jq = t.var('lj!', t.INT)
+                    st.assume(t.and_(t.app('dyn_sized', t.BOOL, dv), t.eq(t.app('dyn_len', t.INT, dv), o_.len),
+                                     t.forall([jq], t.eq(t.app('dyn_item', t.VAL, dv, jq), t.T(t.VAL, 'select', (o_.arr, jq))), pats=[[t.app('dyn_item', t.VAL, dv, jq)]])))
+                bound[an] = VDyn(dv)
         pre = View(eng, st, selfv, bound)
         for label, cond in self.requires(pre):
             eng.emit(st, '%s/call %s/requires/%s' % (eng.fnname, self.qual.split(':')[1], label), cond, kind='call-pre', tags=self.tags)
